@@ -18,7 +18,7 @@ P = {
          ['FixSelfIntersects loop, bounding-box clause, all geometric clauses (spikes beyond CleanCollinear, crossings, orientation vs nesting, Union idempotence)'], '5 C03'),
  'C04': ('Proof (loop contracts) that BuildPaths64/BuildTree64/BuildPathsD/BuildTreeD visit every OutRec of the final list exactly once and build every path through the same callee with the same arguments in the paths and tree variants; CheckBounds call trace; IsHole <=> even non-zero Level; bounded Path1InsidePath2 vote (boundary midpoint counts as inside), RecursiveCheckOwners (first qualifying tentative owner, child of its node or of the root), SetOwner acyclicity and CheckSplitOwner progress.',
          ['nesting correctness of the owner search as a whole (see finding F14 in DESIGN.md), area equality'], '5 C04'),
- 'C05': ("Proof of IsContributingOpen == the statement's inside/outside rule per clip type and fill rule; the builders hand open OutRecs to the open solution with isOpen=true in both variants; bounded SetWindCountForOpenPathEdge and AddPaths_ open end flags.",
+ 'C05': ("Proof of IsContributingOpen == the statement's inside/outside rule per clip type and fill rule; the builders hand open OutRecs to the open solution with isOpen=true in both variants; bounded SetWindCountForOpenPathEdge and AddPaths_ open end flags; IntersectEdges keeps an open edge hot exactly while the face it runs through makes it contribute (all clip types, fill rules, winding numbers); bounded InsertLocalMinimaIntoAEL / DoMaxima at open ends.",
          ['where pieces are cut, lengths, tolerance; closed result unchanged by open subjects'], '5 C05'),
  'C06': ('Proof of the sign/orientation plumbing of polygon offsetting (Group reversal flag, group_delta_ sign, |delta|<0.5 and delta==0 shortcuts, clean-up union fill rule / ReverseSolution) and of the join selection of OffsetPoint the vertex traversal of OffsetPolygon (call-trace contracts) and BuildNormals (one normal per vertex, cyclic successor); DoBevel/DoMiter/DoRound/DoSquare place their vertices along the adjacent edge normals / the bisector by the signed (resp. absolute) group delta (floating-point operations uninterpreted); arc step set up per group before round joins or round ends are drawn.',
          ['the offset region itself (trigonometry, floating point), DoSquare/DoMiter/DoRound geometry'], '5 C06'),
